@@ -249,8 +249,22 @@ class Prop(SeqProp):
                 size = "len-raises-" + err_name(e)
                 size = l.size
             links = ";".join(f"{name(x)}({name(x.prev_node)},{name(x.next_node)})" for x in f)
+            # the public traversals agree with the links: iter_nodes() yields the nodes, iteration their payloads (twice)
+            extra = ""
+            if len(f) <= 60:
+                try:
+                    import itertools
+                    it_nodes = list(itertools.islice(l.iter_nodes(), fuel + 1))
+                    it_data = list(itertools.islice(iter(l), fuel + 1))
+                    it_data2 = list(itertools.islice(iter(l), fuel + 1))
+                    if len(it_nodes) != len(f) or any(a is not b for a, b in zip(it_nodes, f)) or len(it_data) != len(f) or \
+                            any(a is not b.data for a, b in zip(it_data, f)) or len(it_data2) != len(it_data) or \
+                            any(a is not b for a, b in zip(it_data, it_data2)):
+                        extra = " traversal-mismatch"
+                except Exception as e:  # noqa
+                    extra = " traversal-mismatch:" + err_name(e)
             return (f"F:{','.join(name(x) for x in f)} B:{','.join(name(x) for x in b)} S:{size} H:{name(l.head)} "
-                    f"T:{name(l.tail)} L:{links}")
+                    f"T:{name(l.tail)} L:{links}{extra}")
 
         def fin(r):
             return r if quiet[0] else r + " " + dump()
@@ -363,6 +377,9 @@ class Prop(SeqProp):
     # ---- independent oracle: a Python list of node ids -------------------------------------------------------------
     def oracle(self, case, impl_out):
         for k, line in enumerate(impl_out):
+            if "traversal-mismatch" in line:
+                return (f"op {k} `{case.ops[k]}`: iter_nodes() / iteration do not yield the nodes / payloads in link order: "
+                        f"{line[:300]!r}")
             if line.startswith("payload-list-damaged"):
                 return (f"op {k} `{case.ops[k]}`: the payloads are node handles of another list; that list is no longer intact "
                         f"(a payload is an opaque value, whatever its type)")
